@@ -51,9 +51,12 @@ func check(c progs.Case) (string, info) {
 		if g.on {
 			impl = implOn
 		}
-		got := progs.ImplRun(impl, c)
+		got, again := progs.ImplRunTwice(impl, c)
 		if msg := progs.Compare(want, got, tol); msg != "" {
 			return g.name + ": " + msg, inf
+		}
+		if msg := progs.Compare(want, again, tol); msg != "" {
+			return g.name + ", second evaluation of the same function with the same argument objects: " + msg, inf
 		}
 	}
 	return "", inf
